@@ -104,14 +104,16 @@ def s1090(key, sends, expect_names, fd, close=False, allow_unknown=False, nogap=
 
 
 def sradar(key, sends, n_lines_last, expect_tables, retry=False, disconnect=None, after=None, n_after=0,
-           partial=None, partial_gap=False, nogap=False):
+           partial=None, partial_gap=False, nogap=False, send_now=False):
     """sends: segments with a gap between (nogap: back-to-back sends instead); disconnect: None | 'exit' | 'retry';
     partial: bytes of an incomplete line sent right before the close (partial_gap: a read timeout elapses first);
     after: bytes sent after the reconnect"""
     steps = [{'op': 'keys', 'hex': F3}, {'op': 'sync', 'n': 2}]
     for i, seg in enumerate(sends):
         if i and not nogap:
-            steps.append({'op': 'gap'})
+            # one iteration per complete line of the previous segment, one that times out on the partial line, one that
+            # may have been in progress when the segment landed
+            steps.append({'op': 'gap', 'n': sends[i - 1].count(b'\n') + 2})
         steps.append({'op': 'send', 'hex': hexs(seg)})
     steps.append({'op': 'sync', 'n': n_lines_last + 2})
     steps.append({'op': 'snap', 'name': 'table'})
@@ -124,13 +126,14 @@ def sradar(key, sends, n_lines_last, expect_tables, retry=False, disconnect=None
         if partial:
             steps.append({'op': 'send', 'hex': hexs(partial)})
             if partial_gap:
-                steps.append({'op': 'gap'})
+                steps.append({'op': 'gap', 'n': 2})
         steps.append({'op': 'close'})
         if disconnect == 'exit':
             steps.append({'op': 'wait_exit'})
         else:
             steps.append({'op': 'accept'})
-            steps.append({'op': 'sync', 'n': 2})
+            if not send_now:
+                steps.append({'op': 'sync', 'n': 2})
             if after:
                 steps.append({'op': 'send', 'hex': hexs(after)})
             steps.append({'op': 'sync', 'n': n_after + 2})
@@ -380,6 +383,10 @@ def enumerate_scripts(tier, fd):
                           partial=part, partial_gap=g))
         out.append(sradar('radar|%s|retry' % name, [done] if done else [], k, {'table': tbl_before, 'table2': full_tbl},
                           retry=True, disconnect='retry', after=rest, n_after=3 - k, partial=part, partial_gap=g))
+        if pl and not g:
+            # the feed continues at once on the new connection (no read timeout between reconnect and the next line)
+            out.append(sradar('radar|%s|retry-now' % name, [done] if done else [], k, {'table': tbl_before, 'table2': full_tbl},
+                              retry=True, disconnect='retry', after=rest, n_after=3 - k, partial=part, send_now=True))
         if done + part:
             out.append(s1090('1090|%s' % name, [done + part], ['L1', 'L2', 'L3'][:k], fd, close=True, allow_unknown=True,
                              close_gap=g))
@@ -389,7 +396,9 @@ def enumerate_scripts(tier, fd):
 
 ASSUMPTIONS = [
     'black box: the real 1090 (pipes) and radar (pty) binaries against a fake TCP server on 127.0.0.1',
-    'timeout gap = >= 3 radar heartbeats with nothing sent (each idle iteration contains one 50 ms read timeout) / 250 ms for 1090 (5x the read timeout, as specified)',
+    "synchronisation is causal, never a sleep: terminal input counts as delivered when /proc/<pid>/io:rchar of the subject grew by the bytes written; feed bytes when the subject's TCP acknowledged them (TIOCOUTQ == 0); a heartbeat (ESC[?25l) counts as emitted after an injection when its offset in the output stream exceeds /proc/<pid>/io:wchar read after the injection; consumed feed lines are bounded by one per such heartbeat",
+    'radar timeout gap = (complete lines in the segment + 2) heartbeats emitted after the segment landed, nothing sent meanwhile (the last of them follows a 50 ms read timeout on the partial line)',
+    '1090 timeout gap = 250 ms (5x the read timeout, as specified) AND the subject blocked in recv() 3 more times (voluntary context switches in /proc/<pid>/status)',
     'radar table oracle = vh feed2table (real decoder + real tracker) on the feed bytes; CRLF line: processed or skipped both accepted',
     '1090 renderings are compared with a reference run of 1090 itself on each line alone (self-differential)',
     '1090 "alive after EOF" is observed 300 ms after the close (a later crash would be missed, never invented)',
